@@ -16,6 +16,8 @@ pub fn mk_despawner() -> AutoDespawner { AutoDespawner::new() }
 /// holders are dropped in a symbolic order, interleaved (symbolically) with the drop of B's.  After every drop:
 /// A is receivable iff no holder of A remains, and then exactly once; B likewise.
 #[kani::proof]
+#[kani::stub(core::any::TypeId::of, crate::vh::stub_typeid_of)]
+#[kani::stub(<core::any::TypeId as crate::vh::PEq>::eq, crate::vh::stub_typeid_eq)]
 #[kani::unwind(8)]
 fn autodespawn_refcount_exact()
 {
@@ -75,6 +77,8 @@ fn autodespawn_refcount_exact()
 
 /// Clones report the same entity; cloning sends nothing; dropping a clone while the original lives sends nothing.
 #[kani::proof]
+#[kani::stub(core::any::TypeId::of, crate::vh::stub_typeid_of)]
+#[kani::stub(<core::any::TypeId as crate::vh::PEq>::eq, crate::vh::stub_typeid_eq)]
 fn autodespawn_clone_is_silent()
 {
     let d = AutoDespawner::new();
@@ -95,6 +99,8 @@ fn autodespawn_clone_is_silent()
 
 /// Clones of the AutoDespawner resource share one channel (collection sees signals prepared via any clone).
 #[kani::proof]
+#[kani::stub(core::any::TypeId::of, crate::vh::stub_typeid_of)]
+#[kani::stub(<core::any::TypeId as crate::vh::PEq>::eq, crate::vh::stub_typeid_eq)]
 fn autodespawn_despawner_clone_shares_channel()
 {
     let d = AutoDespawner::new();
@@ -106,6 +112,8 @@ fn autodespawn_despawner_clone_shares_channel()
 }
 
 #[kani::proof]
+#[kani::stub(core::any::TypeId::of, crate::vh::stub_typeid_of)]
+#[kani::stub(<core::any::TypeId as crate::vh::PEq>::eq, crate::vh::stub_typeid_eq)]
 #[kani::unwind(8)]
 fn autodespawn_witness()
 {
